@@ -133,12 +133,14 @@ def rec_scene(seed):
            'fit': list(fit), 'local_bkg': use_lbkg, 'raised': False, 'check_recovery': False, 'scaled_ok': True, 'units_ok': True, 'iter_equal': True, 'n': n}
     try:
         ph = mk()
-        res = ph(data, mask=m, init_params=init.copy())
+        # a uniform error map (as float64, or as the integer array a constant read noise is often stored in): uniform weights, same fit
+        errmap = [None, None, np.full(data.shape, 2.0), np.full(data.shape, 2), np.full(data.shape, 3, dtype=np.int16)][seed % 5]
+        res = ph(data, mask=m, error=errmap, init_params=init.copy())
         if m is not None:
             # the values stored under the mask are irrelevant (fit, local background, initial fluxes)
             da, db = data.copy(), data.copy()
             da[m] = 1e4; db[m] = -3e3
-            ra, rb = mk()(da, mask=m, init_params=init.copy()), mk()(db, mask=m, init_params=init.copy())
+            ra, rb = mk()(da, mask=m, error=errmap, init_params=init.copy()), mk()(db, mask=m, error=errmap, init_params=init.copy())
             rec['maskblind_ok'] = bool(all(np.allclose(np.asarray(ra[cn], dtype=float), np.asarray(rb[cn], dtype=float), rtol=1e-6, atol=1e-6, equal_nan=True)
                                            for cn in ('x_fit', 'y_fit', 'flux_fit', 'local_bkg', 'flux_init', 'npixfit', 'flags')))
         rec.update(id_=None)
@@ -180,7 +182,7 @@ def rec_scene(seed):
         init3 = init.copy()
         if use_lbkg:
             init3['local_bkg'] = np.asarray(init['local_bkg']) * 3.0
-        res3 = mk()(data * 3.0, mask=m, init_params=init3)
+        res3 = mk()(data * 3.0, mask=m, error=None if errmap is None else errmap * 3, init_params=init3)
         # (demanded for well-constrained scenes only: separately fitted heavy blends converge to ill-defined values)
         rec['scaled_ok'] = bool((not rec['check_recovery']) or np.allclose(np.asarray(res3['flux_fit']), 3.0 * np.asarray(res['flux_fit']), rtol=1e-5, atol=1e-5))
         # the same scene with units: data in Jy, the supplied local backgrounds (and initial fluxes) written in mJy - the same physical
@@ -196,8 +198,8 @@ def rec_scene(seed):
                 init_u['local_bkg'] = np.full(n, 2500.0) * u.mJy
             du = (data + (0.0 if use_lbkg else 2.5)) * u.Jy
             try:
-                ru = mk()(du, mask=m, init_params=init_u)
-                ref = res if use_lbkg else mk()(data + 2.5, mask=m, init_params=Table(init, copy=True) if False else _with_lbkg(init, 2.5))
+                ru = mk()(du, mask=m, error=None if errmap is None else errmap * u.Jy, init_params=init_u)
+                ref = res if use_lbkg else mk()(data + 2.5, mask=m, error=errmap, init_params=Table(init, copy=True) if False else _with_lbkg(init, 2.5))
                 rec['units_ok'] = bool(np.allclose(np.asarray(ru['flux_fit'].to_value(u.Jy)), np.asarray(ref['flux_fit'], dtype=float), rtol=1e-6, atol=1e-6, equal_nan=True)
                                        and np.allclose(np.asarray(ru['x_fit'], dtype=float), np.asarray(ref['x_fit'], dtype=float), rtol=1e-6, atol=1e-6, equal_nan=True))
             except (ValueError, u.UnitsError):
@@ -206,7 +208,7 @@ def rec_scene(seed):
         if seed % 3 == 0:
             it = IterativePSFPhotometry(mod, fit, DAOStarFinder(1e9, 3.0), grouper=SourceGrouper(t / 4.0) if grouping in ('grouper', 'both') else None,
                                         aperture_radius=4, maxiters=1, xy_bounds=(bval, bval) if bounds else None, localbkg_estimator=lbe)
-            r2 = it(data, mask=m, init_params=init.copy())
+            r2 = it(data, mask=m, error=errmap, init_params=init.copy())
             same = all(np.allclose(np.asarray(r2[cn], dtype=float), np.asarray(res[cn], dtype=float), rtol=1e-9, atol=1e-9, equal_nan=True)
                        for cn in ('id', 'group_id', 'x_fit', 'y_fit', 'flux_fit', 'npixfit', 'flags') if cn in r2.colnames)
             rec['iter_equal'] = bool(same and len(r2) == len(res))
